@@ -21,7 +21,7 @@
          iteration limit or on the convergenceLimit test without balancing)
     [None] = one of the Go panics ("NAN!", "outflow is nan", "delta is NaN", "Invalid range").
 
-    Parameter order (generated wrapper): InflowBias, RoutingConstant, RoutingPower,
+    Order of the parameters (generated wrapper): InflowBias, RoutingConstant, RoutingPower,
     area, deadStorage, DeltaT.  States: S, prevInflow, prevOutflow.  Inputs:
     inflow, lateral, rainfall, evap.  Outputs: outflow, storage. *)
 From Coq Require Import ZArith List Bool.
@@ -198,7 +198,8 @@ Section K.
   Definition storage_routing_run (params states : list T) (inputs : list (list T))
     : option (list sr_output * list T) :=
     match params, states, inputs with
-    | [bias; k; x; area; dead; dt], s :: prev_in :: prev_out :: rest, [inflows; laterals; rain; evap] =>
+    | bias :: k :: x :: area :: dead :: dt :: _, s :: prev_in :: prev_out :: rest,
+      inflows :: laterals :: rain :: evap :: _ =>
         let p := sr_setup bias k x area dead dt in
         match sr_run p (sr_init s prev_in prev_out) (zip4 inflows laterals rain evap) with
         | (Some sT, outs) =>
